@@ -373,7 +373,66 @@ def job_object(n, bits, custom):
               lift(cq.stats_cache_i[0]) != st.calls[1][2].t, lift(cq.stats_cache_i[1]) != st.calls[1][3].t]
         r, _ = core.check(base + [z3.Or(*cl)], timeout_ms=60000)
         recs.append(q(f"{tag}:leaf{li}:separate-stats", r))
+        if r == 'sat':
+            recs.append(cex('C09:object:cache', 'the cached statistics of the real and the imaginary quantiser are not the two separate estimates', dict(fn='object', n=n, bits=bits, custom=custom), name=f"{tag}:leaf{li}:separate-stats"))
     r, _ = core.check(pre + [z3.Not(z3.Or(*conds))])
+    recs.append(q(f"{tag}:split-complete", r, leaves=len(leaves)))
+    return recs
+
+
+def job_complex_sequence(period, ncalls, bits):
+    """several calls of one ComplexQuantizer: between refreshes each part is scaled with ITS OWN cached estimates"""
+    recs = []
+    tag = f"C09:complex-seq:{(period, ncalls, bits)}"
+    n, nstat = 2, 2
+    ins = [(sym_stream(f'xr{c}', n), sym_stream(f'xi{c}', n)) for c in range(ncalls)]
+
+    def run():
+        def body():
+            cq = Q.ComplexQuantizer(target_fwhm=32, num_bits=bits, stats_calc_period=period, stats_calc_num_samples=nstat)
+            return [cq.quantize(npx.sarr([SymC(a, b) for a, b in zip(xr, xi)])) for xr, xi in ins], cq
+        (outs, cq), st = with_stats_stub(body)
+        return outs, cq, st
+    with volt_patches():
+        leaves = core.explore(run, [], cap=200)
+    tstd = 32 / (2 * np.sqrt(2 * np.log(2)))
+    conds = []
+    for li, leaf in enumerate(leaves):
+        conds.append(leaf.cond())
+        base = leaf.pc + leaf.side
+        name = f"{tag}:leaf{li}"
+        pl = dict(fn='object', n=3, bits=bits, custom='none')
+        if leaf.kind == 'exc':
+            r, _ = core.check(base)
+            recs.append(q(name + ':noexc', r, detail=repr(leaf.value)))
+            if r == 'sat':
+                recs.append(cex('C09:complex-seq:raise', f'quantize raised {leaf.value!r}', pl, name=name + ':noexc'))
+            continue
+        outs, cq, st = leaf.value
+        refresh = [c for c in range(ncalls) if (period > 0 and c % period == 0) or c == 0]
+        # estimates are taken on the refresh calls only, one of each part, from that call's own samples
+        okcalls = len(st.calls) == 2 * len(refresh) and all(
+            all(a is b for a, b in zip(st.calls[2 * k][0], list(ins[c][0]))) and all(a is b for a, b in zip(st.calls[2 * k + 1][0], list(ins[c][1])))
+            for k, c in enumerate(refresh))
+        r0, _ = core.check([RV(int(okcalls)) != 1])
+        recs.append(q(name + ':estimates', r0, trivial=True, detail=f"{len(st.calls)} estimates for refresh calls {refresh}"))
+        if not okcalls:
+            recs.append(cex('C09:complex-seq:estimates', f'statistics are not taken separately per part on calls {refresh} (period {period})', pl, name=name + ':estimates'))
+            continue
+        dis = []
+        for c in range(ncalls):
+            k = max(i for i, rc in enumerate(refresh) if rc <= c)
+            for sel in (0, 1):
+                mu, sd = st.calls[2 * k + sel][2].t, st.calls[2 * k + sel][3].t
+                for j in range(n):
+                    xv = lift(ins[c][sel][j])
+                    spec = clip_rne_term(z3.If(sd == 0, RV(0), (RV(tstd) / sd) * (xv - mu) + RV(0)), bits)
+                    dis.append(cparts(outs[c][j])[sel] != spec)
+        r, m = core.check(base + [z3.Or(*dis)], timeout_ms=120000)
+        recs.append(q(name, r, calls=ncalls))
+        if r == 'sat':
+            recs.append(cex('C09:complex-seq:values', f'period {period}: a part of the complex quantiser is not scaled with its own estimates of the last refresh', pl, name=name))
+    r, _ = core.check([z3.Not(z3.Or(*conds))] if conds else [])
     recs.append(q(f"{tag}:split-complete", r, leaves=len(leaves)))
     return recs
 
@@ -551,7 +610,28 @@ def replay_object(p):
         got = np.real(out) if sel == 0 else np.imag(out)
         if not np.array_equal(got.astype(int), want):
             bad.append(f"{part}: {got} != {want}")
-    return bool(bad), '; '.join(bad) or 'complex quantiser agrees'
+    if cs is None:
+        for part, x, cache in (('re', xr, cq.stats_cache_r), ('im', xi, cq.stats_cache_i)):
+            if not np.allclose([float(cache[0]), float(cache[1])], [np.mean(x[:2]), np.std(x[:2])]):
+                bad.append(f"cached statistics of the {part} part are {list(cache)}, its own estimate is {[np.mean(x[:2]), np.std(x[:2])]}")
+    # several calls: between refreshes each part keeps using ITS OWN estimates
+    for period in (1, 3, 0, -1):
+        cq = qz.ComplexQuantizer(target_fwhm=32, num_bits=bits, stats_calc_period=period, stats_calc_num_samples=2)
+        est = {}
+        for call in range(4):
+            xr_, xi_ = rng.normal(call, 3 + call, n), rng.normal(-2 * call, 1 + call, n)
+            out = cq.quantize(xr_ + 1j * xi_, custom_stds=cs)
+            if (period > 0 and call % period == 0) or call == 0:
+                est = {0: (np.mean(xr_[:2]), np.std(xr_[:2])), 1: (np.mean(xi_[:2]), np.std(xi_[:2]))}
+            for part, x, sel in (('re', xr_, 0), ('im', xi_, 1)):
+                mu, sd = est[sel]
+                div = sd if cs is None else (cs if not isinstance(cs, list) else cs[sel])
+                want = ref_q(x, 0.0, tstd, bits, mu, div)
+                got = (np.real(out) if sel == 0 else np.imag(out)).astype(int)
+                if not np.array_equal(got, want):
+                    bad.append(f"period {period}, call {call}, {part}: {got} != {want} (quantised with its own estimates of the last refresh)")
+                    break
+    return bool(bad), '; '.join(bad[:3]) or 'complex quantiser agrees'
 
 
 def replay_zero(p):
@@ -602,6 +682,8 @@ def main():
             jobs.append(('job_monotone_exec', (max(n, 2), bits)))
         for custom in ('none', 'scalar', 'pair'):
             jobs.append(('job_object', (3, bits, custom)))
+    for period in (1, 2, 3, 0, -1):
+        jobs.append(('job_complex_sequence', (period, 3 if not ck.thorough else 4, 2)))
     for n_, k_ in ((1, 1), (3, 2), (3, 7), (4, 4), (4, 1)):
         jobs.append(('job_stats', (n_, k_)))
     jobs.append(('job_refresh_step', ('pos',)))
